@@ -876,6 +876,7 @@ BOUNDS = {
         "G13 whitespace-only head lines": "${ }, <% %>, <%! %> whose code is preceded by {nothing, a space, a TAB} behind the opener and 0-2 lines drawn from {empty, spaces, TAB, mixed}; forms {u, 2l}; LF/CRLF; {none, imm}",
         "G14 regex-metacharacter tags": "16 configured comment tags built from the seed's tag with [ ] ( ) . * + ? | ^ $ \\ { } (balanced and unbalanced), alone and next to a second tag: a comment starting with the literal tag (must attach) and one starting with what the tag would match as a pattern (must not), either order, LF/CRLF",
         "G15 rare characters": "a message literal containing FF, VT, FS, GS, RS, NEL, U+2028 or U+2029 (line breaks for str.splitlines and blanks for \\s, ordinary characters in a Python string) in every construct layout, ascii / utf-8 / latin-1 sources, LF/CRLF, with and without a translator comment: message text and line exact",
+        "G16 far down": "the canonical layout of every construct kind (thorough: every layout) behind 9 / 99 / 999 filler lines (thorough: 8..10, 98..100, 998..1000), LF/CRLF, 3 comment arrangements, both extractors",
         "G6 stale comment": "tagged comment directly before X in {message-free construct of each of the 14 kinds, the 4 control-line kinds left open, a text line, a blank line} x 0/1/3 text lines x {untagged comment, tagged comment, no comment} directly before a message construct of each of the 14 kinds x LF/CRLF",
     },
     "thorough": {
@@ -1144,6 +1145,19 @@ def gen_unit(unit, tier, al):
                             doc = single_doc(ral, enc, cons, 1, eol, arr, "text")
                             doc["desc"] = dict(doc["desc"], rare_char="U+%04X" % ord(ch))
                             yield from ext_cases(doc, ral, enc, lingua=(enc == "utf-8"))
+    elif g == "G16":
+        # the construct far down: 9 / 99 / 100 / 999 / 1000 filler lines before it (line numbers gain a digit)
+        _, li = unit
+        layout = LAYOUTS[li]
+        for form in ("u", "2l"):
+            if form not in forms_of(layout):
+                continue
+            cons = construct(al, "utf-8", layout, form)
+            for P in ((9, 99, 999) if tier == "quick" else (8, 9, 10, 98, 99, 100, 998, 999, 1000)):
+                for eol in ("lf", "crlf"):
+                    for arr in ("none", "imm", "stack-tagged"):
+                        doc = single_doc(al, "utf-8", cons, P, eol, arr, "text")
+                        yield from ext_cases(doc, al, "utf-8")
     elif g == "V":
         return
     else:
@@ -1229,6 +1243,9 @@ def units(tier):
     us.append(("G14",))
     for li in range(len(LAYOUTS)):
         us.append(("G15", li))
+    for li in range(len(LAYOUTS)):
+        if tier != "quick" or LAYOUTS[li] is CANON[LAYOUTS[li][0]]:
+            us.append(("G16", li))
     return us
 
 
